@@ -14,6 +14,24 @@ P = {
  "C03": (True, "exploration", "property-based testing + exhaustive short strings + mutation/grammar-aware fuzzing vs reference decoder (differential)",
    "Differential decoding against an independent reference decoder on exhaustive short strings, mutated valid encodings, count-tampered and grammar-aware near-valid strings and random strings; panics are violations.",
    "Trusts the reference decoder (self-tested on published vectors and rejection rules). Recursive types get <=256-byte inputs here; zero-width giant counts skipped (counted).", "§6 C03"),
+ "C04": (True, "exploration", "exhaustive enumeration of 8/16-bit (thorough: 32-bit) values and decoder-distinguishable strings + boundary/random property-based testing vs arithmetic reference",
+   "Complete enumeration of every u8/u16 value and of every string the 8- and 16-bit decoders can distinguish (thorough: all 2^32 u32 values and the 32-bit decoder's ~5.4e9 strings); class boundaries, two-lane values, tag x top-byte x length strings and random values/strings for 64/128 bit; arithmetic oracle for canonical form, compact_len, all Encode entry points and cross-width decoding.",
+   "Two independently written arithmetic references (model crate, c04.rs) cross-checked; 64/128-bit domains are sampled.", "§6 C04"),
+ "C07": (True, "exploration", "property-based differential testing: six encode entry points vs reference; bulk paths vs hand-written element-wise twin type",
+   "Every encode entry point against the reference encoding for generated zoo values; bulk primitive paths against an element-wise twin type for all 12 primitives, lengths up to 3 preallocation chunks, slices/Vec/wrapped VecDeque/arrays, decoding valid, truncated and extended inputs over slice and unknown-length inputs.",
+   "The twin type defines element-wise behaviour via to_le_bytes/from_le_bytes.", "§6 C07"),
+ "C08": (True, "exploration", "property-based differential testing across Input implementations and all 39 wrapper orderings",
+   "Slice decoding as oracle for IoReader (cursor and generated short-read schedules), unknown-length input, decode_from_bytes, and every ordering of the three provided wrappers up to depth 3 over known/unknown-length bases, on byte strings from the C03 families.",
+   "Wrapper stacks run over a type-erased Input adapter (same source paths, one monomorphisation).", "§6 C08"),
+ "C14": (True, "exploration", "property-based testing: metamorphic relations (prefix rejection, concatenation, decode_all equivalence)",
+   "Three executable relations over generated values/strings: strict prefixes fail, concatenations decode value by value, decode_all / decode_all_with_depth_limit succeed exactly when decode succeeds with nothing left.",
+   "Cut points are sampled (60) for encodings longer than 300 bytes.", "§6 C14"),
+ "C18": (True, "exploration", "property-based testing: DecodeLength vs true length and reference compact decoder; skip vs decode differential",
+   "len(encode(v)) against the value's length for all DecodeLength zoo types incl. tuples of arity 1-18; len on arbitrary strings against the reference compact decoder (exhaustive <= 2 bytes); skip vs decode on byte strings from the C03 families for every decodable type.",
+   "Reference compact decoder self-tested.", "§6 C18"),
+ "C19": (True, "exploration", "property-based testing: CountedInput vs slice position / logging base input; saturation via cfg-guarded hook",
+   "count() against the wrapped slice's consumed length after success and failure for generated strings of every decodable type, against a logging base input for every wrapper stack containing CountedInput, and against a saturating model near u64::MAX through the guarded constructor.",
+   "The hook only sets the initial counter value.", "§6 C19"),
 }
 PENDING = {
 }
